@@ -1,25 +1,40 @@
 #!/bin/bash
-# confirm_seed.sh <worktree> <seed-dir> "<cargo test package args>"   e.g. /tmp/wt-C05 /tmp/wt-C05/out/C05-1 "-p veryl-cache"
-# Confirms in the scratch worktree: patch applies and builds, the demo fails with it and passes without it,
-# the named crates' existing tests pass with it. Writes <seed-dir>/confirm.log and prints a one-line verdict.
+# confirm_seed.sh <worktree> <seed-dir> "<cargo test package args>"
+# Confirms in the scratch worktree: patch applies and builds; the demonstration (demo.sh driving the built binary, or the
+# test files added by demo.diff) fails with the patch and passes without it; the named crates' existing tests pass with it.
 WT=$1; SD=$2; PK=$3
 export CARGO_TARGET_DIR=$WT/target CARGO_NET_OFFLINE=true
 cd $WT || exit 2
 LOG=$SD/confirm.log; : > $LOG
-git checkout -q -- . ; git status --short | grep -v '^??' >> $LOG
+clean() { git checkout -q -- . ; git clean -fdq crates >/dev/null 2>&1; }
+clean
+demo() {  # prints exit status of the demonstration
+  if [ -f $SD/demo.sh ]; then
+    cargo build -p veryl --offline -j 8 >> $LOG 2>&1 || { echo BUILDFAIL; return; }
+    bash $SD/demo.sh $WT/target/debug/veryl >> $LOG 2>&1; echo $?
+  elif [ -f $SD/demo.diff ]; then
+    git apply $SD/demo.diff >> $LOG 2>&1 || { echo DEMOAPPLYFAIL; return; }
+    rc=0
+    for tf in $(grep '^+++ b/' $SD/demo.diff | sed 's|^+++ b/||'); do
+      crate=$(echo $tf | sed -n 's|^crates/\([^/]*\)/.*|\1|p'); name=$(basename $tf .rs)
+      pkg=$(sed -n 's/^name *= *"\(.*\)"/\1/p' crates/$crate/Cargo.toml | head -1)
+      if echo $tf | grep -q "/tests/"; then
+        cargo test -p $pkg --offline -j 8 --test $name >> $LOG 2>&1 || rc=1
+      else
+        cargo test -p $pkg --offline -j 8 >> $LOG 2>&1 || rc=1
+      fi
+    done
+    echo $rc
+  else echo NODEMO; fi
+}
 git apply $SD/patch.diff >> $LOG 2>&1 || { echo "$SD: PATCH DOES NOT APPLY"; exit 1; }
-[ -f $SD/demo.diff ] && { git apply $SD/demo.diff >> $LOG 2>&1 || { echo "$SD: demo.diff does not apply"; } }
-cargo build -p veryl --offline -j 8 >> $LOG 2>&1 || { echo "$SD: DOES NOT BUILD"; git checkout -q -- .; exit 1; }
-if [ -f $SD/demo.sh ]; then bash $SD/demo.sh $WT/target/debug/veryl >> $LOG 2>&1; WITH=$?; else WITH=NA; fi
-echo "== demo with patch: exit $WITH" >> $LOG
 cargo test $PK --offline -j 8 --no-fail-fast > $SD/tests_with_patch.log 2>&1; TRC=$?
-FAILED=$(grep -E "^test .* FAILED|^    [a-z_:]+ *$" $SD/tests_with_patch.log | grep -v "probe_info_description\|tests::progress" | grep FAILED | head -5)
-echo "== tests with patch: rc $TRC; unexpected failures: [$FAILED]" >> $LOG
-git checkout -q -- .
-# demo.diff adds only tests: re-apply it alone for the without-patch run
-[ -f $SD/demo.diff ] && git apply $SD/demo.diff >> $LOG 2>&1
-cargo build -p veryl --offline -j 8 >> $LOG 2>&1
-if [ -f $SD/demo.sh ]; then bash $SD/demo.sh $WT/target/debug/veryl >> $LOG 2>&1; WITHOUT=$?; else WITHOUT=NA; fi
+FAILED=$(grep -E "^test .* FAILED" $SD/tests_with_patch.log | grep -v "probe_info_description\|tests::progress" | head -5 | tr '\n' ';')
+echo "== existing tests with patch: rc $TRC; failures other than the known wall-clock flakes: [$FAILED]" >> $LOG
+WITH=$(demo)
+echo "== demo with patch: exit $WITH" >> $LOG
+clean
+WITHOUT=$(demo)
 echo "== demo without patch: exit $WITHOUT" >> $LOG
-git checkout -q -- .
-echo "$SD: demo_with=$WITH demo_without=$WITHOUT tests_rc=$TRC unexpected_failures=[$FAILED]"
+clean
+echo "$SD: demo_with=$WITH demo_without=$WITHOUT tests_rc=$TRC other_failures=[$FAILED]"
